@@ -12,16 +12,326 @@ theorem lex_cons (c : Char) (cs : List Char) :
       | .tok t n => (lex K (cs.drop n)).map (t :: ·) := by
   rw [lex]; rfl
 
-theorem scan_comma (hK : K.WF) (cs : List Char) : scan K ',' cs = .tok .comma 0 := by
-  have := (hK.special ',' (by simp)).2
-  simp [scan, this]
+/-! ## words -/
 
-theorem scan_arrow (hK : K.WF) (cs : List Char) : scan K '-' ('>' :: cs) = .tok .arrow 1 := by
-  have := (hK.nohead '-' (by simp)).2
-  simp [scan, this]
+/-- the text `rest` does not continue a run of `p` characters -/
+def stops (p : Char → Bool) : List Char → Prop
+  | [] => True
+  | c :: _ => p c = false
 
-theorem scan_andand (hK : K.WF) (cs : List Char) : scan K '&' ('&' :: cs) = .tok .andand 1 := by
-  have := (hK.special '&' (by simp)).2
-  simp [scan, this]
+theorem takeWhile_append_stop {p : Char → Bool} : ∀ (r rest : List Char), r.all p = true →
+    stops p rest → (r ++ rest).takeWhile p = r := by
+  intro r
+  induction r with
+  | nil =>
+    intro rest _ h
+    cases rest with
+    | nil => rfl
+    | cons c cs => simp only [List.nil_append]; simp [List.takeWhile, stops] at h ⊢; simp [h]
+  | cons a r ih =>
+    intro rest hr h
+    simp only [List.all_cons, Bool.and_eq_true] at hr
+    simp [List.takeWhile, hr.1, ih rest hr.2 h]
+
+theorem safe_of_idHead {c : Char} (h : K.idHead c = true) : K.safe c = true := by
+  simp [Classes.safe, h]
+
+theorem safe_of_nonIdHead {c : Char} (h : K.nonIdHead c = true) : K.safe c = true := by
+  simp [Classes.safe, h]
+
+/-- a word character is none of the characters the decision tree tests first -/
+theorem safe_facts (hK : K.WF) {c : Char} (h : K.safe c = true) :
+    K.ws c = false ∧ c ≠ ',' ∧ c ≠ '{' ∧ c ≠ '}' ∧ c ≠ ':' ∧ c ≠ '[' ∧ c ≠ ']' ∧ c ≠ '(' ∧ c ≠ ')' ∧
+      c ≠ '&' ∧ c ≠ '"' ∧ c ≠ '\'' ∧ c ≠ '>' := by
+  have hs := hK.special
+  refine ⟨?_, ?_, ?_, ?_, ?_, ?_, ?_, ?_, ?_, ?_, ?_, ?_, ?_⟩
+  · cases hw : K.ws c with
+    | false => rfl
+    | true => have := hK.ws_not_safe c hw; simp [h] at this
+  · rintro rfl; have := (hs ',' (by simp)).1; simp [h] at this
+  · rintro rfl; have := (hs '{' (by simp)).1; simp [h] at this
+  · rintro rfl; have := (hs '}' (by simp)).1; simp [h] at this
+  · rintro rfl; have := (hs ':' (by simp)).1; simp [h] at this
+  · rintro rfl; have := (hs '[' (by simp)).1; simp [h] at this
+  · rintro rfl; have := (hs ']' (by simp)).1; simp [h] at this
+  · rintro rfl; have := (hs '(' (by simp)).1; simp [h] at this
+  · rintro rfl; have := (hs ')' (by simp)).1; simp [h] at this
+  · rintro rfl; have := (hs '&' (by simp)).1; simp [h] at this
+  · rintro rfl; have := (hs '"' (by simp)).1; simp [h] at this
+  · rintro rfl; have := (hs '\'' (by simp)).1; simp [h] at this
+  · rintro rfl; have := (hs '>' (by simp)).1; simp [h] at this
+
+theorem wordEnd_takeWhile {rest : List Char} (h : wordEnd K rest) : stops K.safe rest := by
+  cases rest with
+  | nil => trivial
+  | cons c cs => exact h.1
+
+theorem scan_id (hK : K.WF) (c : Char) (r rest : List Char) (hc : K.idHead c = true)
+    (hr : r.all K.safe = true) (hrest : wordEnd K rest) :
+    scan K c (r ++ rest) = .tok (.id (c :: r)) r.length := by
+  obtain ⟨h0, h1, h2, h3, h4, h5, h6, h7, h8, h9, h10, h11, _⟩ := safe_facts hK (safe_of_idHead hc)
+  have n1 : c ≠ '!' := by rintro rfl; have := (hK.nohead '!' (by simp)).1; simp [hc] at this
+  have n2 : c ≠ '#' := by rintro rfl; have := (hK.nohead '#' (by simp)).1; simp [hc] at this
+  have n3 : c ≠ '-' := by rintro rfl; have := (hK.nohead '-' (by simp)).1; simp [hc] at this
+  have n4 : c ≠ '/' := by rintro rfl; have := (hK.nohead '/' (by simp)).1; simp [hc] at this
+  have htw := takeWhile_append_stop r rest hr (wordEnd_takeWhile hrest)
+  simp [scan, isArrow, commentAt, h0, h1, h2, h3, h4, h5, h6, h7, h8, h9, h10, h11, n1, n2, n3, n4, hc, htw]
+
+theorem blockEnd_cons_cons (x y : Char) (a : List Char) :
+    blockEnd (x :: y :: a) = if x = '*' ∧ y = '/' then some 2 else (blockEnd (y :: a)).map (· + 1) := by
+  simp [blockEnd]
+
+theorem blockEnd_append : ∀ (a b : List Char) (e : Nat), blockEnd a = some e → blockEnd (a ++ b) = some e := by
+  intro a
+  induction a with
+  | nil => intro b e h; simp [blockEnd] at h
+  | cons x a ih =>
+    intro b e h
+    cases a with
+    | nil => simp [blockEnd] at h
+    | cons y a' =>
+      rw [blockEnd_cons_cons] at h
+      simp only [List.cons_append]
+      rw [blockEnd_cons_cons]
+      split at h
+      · rename_i hc; simp only [hc, and_self, if_true]; exact h
+      · rename_i hne
+        simp only [hne, if_false]
+        cases hb : blockEnd (y :: a') with
+        | none => rw [hb] at h; simp at h
+        | some e' =>
+          rw [hb] at h
+          simp only [Option.map_some, Option.some.injEq] at h
+          have := ih b e' hb
+          simp only [List.cons_append] at this
+          rw [this]; simp [h]
+
+theorem scan_nonId (hK : K.WF) (c : Char) (r rest : List Char) (hc : K.nonIdHead c = true)
+    (hid : K.idHead c = false) (hr : r.all K.safe = true)
+    (hslash : c = '/' → ∀ r', r = '*' :: r' → ∃ e, blockEnd r' = some e ∧ e < r'.length)
+    (hrest : wordEnd K rest) :
+    scan K c (r ++ rest) = .tok (.nonId (c :: r)) r.length := by
+  obtain ⟨h0, h1, h2, h3, h4, h5, h6, h7, h8, h9, h10, h11, _⟩ := safe_facts hK (safe_of_nonIdHead hc)
+  have n1 : c ≠ '!' := by rintro rfl; have := hK.bang_hash_nonid.1; simp [hc] at this
+  have n2 : c ≠ '#' := by rintro rfl; have := hK.bang_hash_nonid.2; simp [hc] at this
+  have htw := takeWhile_append_stop r rest hr (wordEnd_takeWhile hrest)
+  -- the arrow test
+  have harrow : isArrow c (r ++ rest) = false := by
+    unfold isArrow
+    by_cases hcm : c = '-'
+    · cases r with
+      | nil =>
+        cases rest with
+        | nil => simp [startsWithGt]
+        | cons x xs =>
+          have hx : x ≠ '>' := hrest.2.1
+          simp only [List.nil_append, startsWithGt]
+          split
+          · rename_i heq; simp only [List.cons.injEq] at heq; exact absurd heq.1 hx
+          · simp
+      | cons a r' =>
+        simp only [List.all_cons, Bool.and_eq_true] at hr
+        have ha : a ≠ '>' := (safe_facts hK hr.1).2.2.2.2.2.2.2.2.2.2.2.2
+        simp only [List.cons_append, startsWithGt]
+        split
+        · rename_i heq; simp only [List.cons.injEq] at heq; exact absurd heq.1 ha
+        · simp
+    · simp [hcm]
+  -- the block comment test
+  have hblock : commentAt K c (r ++ rest) = none := by
+    unfold commentAt
+    split
+    · rename_i hc'
+      cases r with
+      | nil =>
+        cases rest with
+        | nil => simp [blockCommentWins]
+        | cons x xs =>
+          have hx : x ≠ '*' := hrest.2.2
+          simp only [List.nil_append, blockCommentWins]
+          split
+          · rename_i heq; simp only [List.cons.injEq] at heq; exact absurd heq.1 hx
+          · rfl
+      | cons a r' =>
+        by_cases ha : a = '*'
+        · subst ha
+          obtain ⟨e, he, hlt⟩ := hslash hc' r' rfl
+          have hbe := blockEnd_append r' rest e he
+          have hnh : K.nonIdHead '/' = true := by subst hc'; exact hc
+          simp only [List.cons_append] at htw
+          simp only [blockCommentWins, List.cons_append, hbe, hnh, if_true, htw, List.length_cons]
+          split
+          · omega
+          · rfl
+        · simp only [List.cons_append, blockCommentWins]
+          split
+          · rename_i heq; simp only [List.cons.injEq] at heq; exact absurd heq.1 ha
+          · rfl
+    · rfl
+  unfold scan
+  simp only [h0, h1, h2, h3, h4, h5, h6, h7, h8, h9, h10, h11, n1, n2, Bool.false_eq_true, if_false, false_or,
+    harrow, hblock, hid, hc, if_true, htw]
+
+/-! ## quoted strings -/
+
+theorem quoteScan_ok (q : Char) : ∀ (s : List Char) (pb : Bool) (fb : Option Nat) (i : Nat) (rest : List Char),
+    quoteBodyOK q pb s = true → quoteScan q pb fb i (s ++ q :: rest) = some (i + s.length + 1) := by
+  intro s
+  induction s with
+  | nil =>
+    intro pb fb i rest h
+    simp only [quoteBodyOK, Bool.not_eq_true'] at h
+    simp [quoteScan, h]
+  | cons c cs ih =>
+    intro pb fb i rest h
+    simp only [quoteBodyOK] at h
+    simp only [List.cons_append, quoteScan]
+    split
+    · rename_i hc
+      simp only [hc, if_true, Bool.and_eq_true] at h
+      simp only [h.1, if_true]
+      rw [ih false _ (i + 1) rest h.2]
+      simp; omega
+    · rename_i hc
+      simp only [hc, if_false] at h
+      rw [ih _ fb (i + 1) rest h]
+      simp; omega
+
+theorem scan_quote (hK : K.WF) (q : Char) (s rest : List Char) (hq : q = '"' ∨ q = '\'')
+    (hs : quoteBodyOK q false s = true) :
+    scan K q (s ++ q :: rest) = .tok (.quote q s) (s.length + 1) := by
+  have hscan := quoteScan_ok q s false none 0 rest hs
+  have hw : K.ws q = false := by
+    rcases hq with rfl | rfl
+    · exact (hK.special _ (by simp)).2
+    · exact (hK.special _ (by simp)).2
+  have htake : List.take s.length (s ++ q :: rest) = s := by simp
+  rcases hq with rfl | rfl <;>
+    simp [scan, hw, hscan, htake]
+
+/-! ## every admissible token is read back -/
+
+theorem drop_length_append (r rest : List Char) : (r ++ rest).drop r.length = rest := by simp
+
+theorem lex_text (hK : K.WF) (t : Tok) (ht : TokOK K t) (rest : List Char)
+    (hrest : t.isWord = true → wordEnd K rest) :
+    lex K (t.text ++ rest) = (lex K rest).map (t :: ·) := by
+  have hsp := hK.special
+  cases t with
+  | comma => simp [Tok.text, lex_cons, scan, (hsp ',' (by simp)).2]
+  | lbrace => simp [Tok.text, lex_cons, scan, (hsp '{' (by simp)).2]
+  | rbrace => simp [Tok.text, lex_cons, scan, (hsp '}' (by simp)).2]
+  | colon => simp [Tok.text, lex_cons, scan, (hsp ':' (by simp)).2]
+  | lbrack => simp [Tok.text, lex_cons, scan, (hsp '[' (by simp)).2]
+  | rbrack => simp [Tok.text, lex_cons, scan, (hsp ']' (by simp)).2]
+  | bang => simp [Tok.text, lex_cons, scan, (hK.nohead '!' (by simp)).2]
+  | lparen => simp [Tok.text, lex_cons, scan, (hsp '(' (by simp)).2]
+  | rparen => simp [Tok.text, lex_cons, scan, (hsp ')' (by simp)).2]
+  | arrow => simp [Tok.text, lex_cons, scan, isArrow, startsWithGt, (hK.nohead '-' (by simp)).2]
+  | andand => simp [Tok.text, lex_cons, scan, startsWithAmp, (hsp '&' (by simp)).2]
+  | id s =>
+    obtain ⟨c, r, rfl, hc, hr⟩ := ht
+    have hw := hrest rfl
+    simp only [Tok.text, List.cons_append, lex_cons, scan_id hK c r rest hc hr hw, drop_length_append]
+  | nonId s =>
+    obtain ⟨c, r, rfl, hc, hid, hr, hslash⟩ := ht
+    have hw := hrest rfl
+    simp only [Tok.text, List.cons_append, lex_cons, scan_nonId hK c r rest hc hid hr hslash hw,
+      drop_length_append]
+  | quote q s =>
+    obtain ⟨hq, hs⟩ := ht
+    have : (s ++ q :: rest).drop (s.length + 1) = rest := by simp
+    simp only [Tok.text, List.cons_append, List.append_assoc, List.nil_append, lex_cons,
+      scan_quote hK q s rest hq hs, this]
+
+/-! ## separators and the whole rendering -/
+
+theorem wordEnd_of_ws (hK : K.WF) {w : Char} (hw : K.ws w = true) (r : List Char) : wordEnd K (w :: r) := by
+  refine ⟨hK.ws_not_safe w hw, ?_, ?_⟩
+  · rintro rfl; have := (hK.special '>' (by simp)).2; simp [hw] at this
+  · rintro rfl; have := (hK.nohead '*' (by simp)).2; simp [hw] at this
+
+theorem lex_renderToks (hK : K.WF) : ∀ (tss : List (Tok × List Char)),
+    (∀ x ∈ tss, TokOK K x.1) → SepsOK K tss → lex K (renderToks tss) = some (tss.map (·.1)) := by
+  intro tss
+  induction tss with
+  | nil => intro _ _; simp [renderToks, lex]
+  | cons x rest ih =>
+    intro htok hsep
+    obtain ⟨t, sep⟩ := x
+    simp only [SepsOK] at hsep
+    obtain ⟨hs, hrest⟩ := hsep
+    have ih' := ih (fun y hy => htok y (List.mem_cons_of_mem _ hy)) hrest
+    have ht : TokOK K t := htok (t, sep) List.mem_cons_self
+    simp only [renderToks]
+    rcases hs with ⟨rfl, hw⟩ | ⟨hskip, w, r, rfl, hw⟩
+    · rw [lex_text hK t ht _ (by simpa using hw)]
+      simp [ih']
+    · rw [lex_text hK t ht _ (fun _ => by simpa using wordEnd_of_ws hK hw _)]
+      rw [hskip, ih']
+      simp
+
+/-! ## things the lexer skips -/
+
+theorem skips_nil : Skips K [] := fun _ => rfl
+
+theorem skips_append {a b : List Char} (ha : Skips K a) (hb : Skips K b) : Skips K (a ++ b) := by
+  intro rest; rw [List.append_assoc, ha, hb]
+
+theorem skips_ws {w : Char} (hw : K.ws w = true) : Skips K [w] := by
+  intro rest; simp [lex_cons, scan, hw]
+
+theorem lex_dropWhile_nl (hK : K.WF) : ∀ rest : List Char, lex K (rest.dropWhile isNL) = lex K rest := by
+  intro rest
+  induction rest with
+  | nil => rfl
+  | cons c cs ih =>
+    simp only [List.dropWhile]
+    split
+    · rename_i hc
+      have hw : K.ws c = true := by
+        simp only [isNL, Bool.or_eq_true, decide_eq_true_eq] at hc
+        rcases hc with rfl | rfl
+        · exact hK.nl_ws.1
+        · exact hK.nl_ws.2
+      rw [ih]
+      simp [lex_cons, scan, hw]
+    · rfl
+
+theorem drop_takeWhile_length (p : Char → Bool) : ∀ l : List Char,
+    l.drop (l.takeWhile p).length = l.dropWhile p := by
+  intro l
+  induction l with
+  | nil => rfl
+  | cons a as ih =>
+    simp only [List.takeWhile, List.dropWhile]
+    split <;> simp_all
+
+theorem lineCommentLen_body : ∀ (body : List Char) (n : Char) (rest : List Char),
+    body.all (fun c => !isNL c) = true → isNL n = true →
+    (body ++ n :: rest).drop (lineCommentLen (body ++ n :: rest)) = rest.dropWhile isNL := by
+  intro body
+  induction body with
+  | nil =>
+    intro n rest _ hn
+    simp only [List.nil_append, lineCommentLen, hn, if_true]
+    rw [Nat.add_comm, List.drop_succ_cons]
+    exact drop_takeWhile_length isNL rest
+  | cons b body ih =>
+    intro n rest hb hn
+    simp only [List.all_cons, Bool.and_eq_true, Bool.not_eq_true'] at hb
+    simp only [List.cons_append, lineCommentLen, hb.1, Bool.false_eq_true, if_false]
+    rw [Nat.add_comm, List.drop_succ_cons]
+    exact ih n rest hb.2 hn
+
+/-- a `#` comment up to and including its newline -/
+theorem skips_lineComment (hK : K.WF) (body : List Char) (n : Char)
+    (hb : body.all (fun c => !isNL c) = true) (hn : isNL n = true) :
+    Skips K ('#' :: (body ++ [n])) := by
+  intro rest
+  have hw : K.ws '#' = false := (hK.nohead '#' (by simp)).2
+  simp only [List.cons_append, List.append_assoc, List.nil_append, lex_cons]
+  simp only [scan, hw, Bool.false_eq_true, if_false, if_true]
+  rw [lineCommentLen_body body n rest hb hn, lex_dropWhile_nl hK]
 
 end DaeVerif.C17
